@@ -92,16 +92,17 @@ Definition compact_stream (size : nat) (group : list tsmfile) : list (key * bloc
 (* Compactor.write / writeNewFiles: blocks go to the current file until WriteBlock reports
    ErrMaxBlocksExceeded (the key now has maxe index entries in this file); the block that
    triggered it is IN the file; a new file continues with the next block. *)
+(* ([rev_append cur []] is [rev cur], computed in linear time) *)
 Fixpoint split_files (maxe : N) (cur : list (key * block)) (ck : option key) (cnt : N)
          (items : list (key * block)) : list (list (key * block)) :=
   match items with
-  | [] => match cur with [] => [] | _ => [rev cur] end
+  | [] => match cur with [] => [] | _ => [rev_append cur []] end
   | (k, b) :: r =>
       let cnt' := match ck with
                   | Some k0 => if key_eqb k0 k then (cnt + 1)%N else 1%N
                   | None => 1%N
                   end in
-      if (maxe <=? cnt')%N then rev ((k, b) :: cur) :: split_files maxe [] None 0%N r
+      if (maxe <=? cnt')%N then rev_append ((k, b) :: cur) [] :: split_files maxe [] None 0%N r
       else split_files maxe ((k, b) :: cur) (Some k) cnt' r
   end.
 
